@@ -76,6 +76,10 @@ CLAIMED = {
             "Exploration with an exhaustive sub-grid: ~125 exemplar Ion values (29 integer boundaries to 2^128, every typed null, float32/64 boundaries, symbols with and without text, lobs, lists / sexps / structs incl. mixed and out-of-range elements) x 75 target types (every integer width, floats, string, []byte, [4]byte, Timestamp, time.Time, Decimal, big.Int, SymbolToken, interface{}, a non-empty interface, pointer / slice / array / map / struct / annotation-wrapper shapes) x {UnmarshalString text, Unmarshal binary, Decoder.DecodeTo} = ~30 000 cells, plus 40 000 random (value, target) pairs and 12 000 Decoder streams per quick run (n values in order, then ErrNoInput thrice).",
             "Verdict 'either' (error or the natural result, both accepted) is used for typed nulls leaving the zero value, surplus list elements / lob bytes for fixed-size arrays, float into Decimal, the case-insensitive field-name fallback and annotated structs into a wrapper. Trusts the conversion table and the reflection walk.",
             "DESIGN.md section 5, C17"),
+    "C18": (PBT + " over generated multi-goroutine workloads run under the Go race detector (test binary built with -race, GORACE=halt_on_error=1); differential oracle: every operation's result in the concurrent run equals its result in a sequential run",
+            "Exploration with the race detector as monitor: per quick run 1200 generated workloads (2-32 goroutines x 1-8 operations over 12 operation kinds sharing three SharedSymbolTables, their Adjust-ed copies, a Catalog, the system table, one fixed local symbol table, one struct type and a per-workload fresh struct type) plus every pair of operation kinds with two goroutines each; the concurrent phase runs first on fresh shared objects so lazily built state is built under contention; results must be byte-identical to a sequential run.",
+            "Schedules are sampled, not enumerated: the race detector flags conflicting unsynchronised accesses that both occur in a run regardless of timing, but not a synchronised-yet-wrong ordering nor a race on a path no script executes. A race report is attributed to the workload in flight (written to a file before it starts). Trusts the Go race detector.",
+            "DESIGN.md section 5, C18"),
     "C19": ("fault enumeration + property-based testing with pgregory.net/rapid: every single split point / every read-fault offset / every failing Write-call index enumerated for a fixed set of documents and call sequences, random plans elsewhere; metamorphic oracle (any delivery plan vs whole buffer) and validity oracles (fault reported, sticky, accepted bytes a prefix)",
             "Fault enumeration: for ~100 fixed documents (hand-written lookahead-hungry texts/binaries + deterministic generator examples) every split point x {EOF alone, EOF with data} x {full, container-skipping traversal}, and a read failure at every byte offset x {alone, with data} x {persistent, one-off} x {whole, byte-at-a-time}; for 40 fixed call sequences x 4 writer configurations a write failure at every Write-call index x {nothing, half accepted} x {persistent, one-off}; plus ~17 000 random (document, plan) / (sequence, fault) cases per quick run including documents straddling bufio's 4096-byte buffer and corrupted documents.",
             "Faults are injected in the io.Reader / io.Writer the harness hands to ion-go (no hooks). A read plan returns at most one (0,nil) in a row. One-off (transient) faults are part of the fault model: the reader/writer must still report them. Trusts the harness's plan reader / fault writer, rapid, Go.",
